@@ -15,7 +15,7 @@ from ref import der
 from simworld import blobstore, prng
 
 LINE_A, LINE_B = 150_000, 400  # budget = A + B * len(input); max observed on valid input ~4k lines for ~1 KiB
-MEM_C, MEM_D = 16_000_000, 64  # peak traced allocation budget (bytes) = C + D * len(input); valid input peaks well below 1 MB
+MEM_C, MEM_D = 64 << 20, 64  # address-space growth budget (bytes) = C + D * len(input); valid input stays below a few MiB
 
 
 def allowed_exception(e: BaseException) -> bool:
@@ -165,9 +165,9 @@ class C05(common.Check):
             "flipped, high-tag form, leaf content shortened to every length / extended with consistent enclosing lengths, raw length octets: "
             "indefinite, 0, +-1, 2^32, 2^63, 2^64, non-minimal); whole-record garbage and PRNG byte "
             "strings. Oracle: returns | needs-network | ValueError/NotImplementedError/NotEnougData/InvalidTag/InvalidUnwrap; <= 300 KDF "
-            "calls; <= 150000 + 400*len traced lines; peak traced allocation <= 16 MB + 64*len. Non-trivial = stored bytes differ from a valid blob; distinct = distinct (blob, mutation).")
+            "calls; <= 150000 + 400*len traced lines; address-space growth during the call <= 64 MiB + 64*len (kernel high-water mark). Non-trivial = stored bytes differ from a valid blob; distinct = distinct (blob, mutation).")
     components = {"client": "real (ncrypt_unprotect_secret and everything below it)", "blob store": "simulated fault injection",
-                  "step budgets": "deterministic counters (KDF wrapper, sys.settrace restricted to dpapi_ng frames, tracemalloc peak)",
+                  "step budgets": "deterministic counters (KDF wrapper, sys.settrace restricted to dpapi_ng frames, address-space high-water mark)",
                   "network": "simulated, none reachable; attempts classified at the seam"}
     assumptions = ["budgets are 4x (KDF) and >20x (lines) the maxima observed on valid input and affine in input length",
                    "PRNG byte strings are a weak generator and stated as such"]
@@ -238,12 +238,9 @@ class C05(common.Check):
         kind = {"flip": "rot", "trunc": "tear", "field": "field", "garbage": "der" if (len(fault) > 2 and fault[2].startswith("der")) else "garbage"}[fault[0]]
         fired = {kind: 1}
         limit = LINE_A + LINE_B * len(stored)
-        import tracemalloc
-
-        tracemalloc.start()
-        out, world, cnt = blobs.unprotect_stored(b, stored, with_key=bool(with_key), line_limit=limit)
-        _cur, peak = tracemalloc.get_traced_memory()
-        tracemalloc.stop()
+        with common.VmWatch() as vm:
+            out, world, cnt = blobs.unprotect_stored(b, stored, with_key=bool(with_key), line_limit=limit)
+        peak = vm.growth
         probes = {"outcome_" + out.kind: 1}
         viol = None
         where = fault[1] if fault[0] == "field" else (fault[2].split("@")[0] if fault[0] == "garbage" and len(fault) > 2 else fault[0])
@@ -261,11 +258,22 @@ class C05(common.Check):
         elif peak > MEM_C + MEM_D * len(stored):
             et, frame = drive.exc_sig(out)
             viol = common.violation("C05", "unbounded-work", "sync", "memory", frame, str(where),
-                                    f"blob {b.name} ({len(stored)} bytes) mutation {fault[:1] + [str(fault[1])[:80]] + fault[2:]}: peak traced allocation "
+                                    f"blob {b.name} ({len(stored)} bytes) mutation {fault[:1] + [str(fault[1])[:80]] + fault[2:]}: address space grew by "
                                     f"{peak} bytes ({peak >> 20} MiB), outcome {out.brief()}")
         probes["max_lines_per_byte_x100"] = 0
         return {"viol": viol, "digest": out.brief() + str(cnt["kdf"]), "key": common.key_hash([bi, with_key, fault[:2]]) if stored != b.blob else None,
                 "fired": fired, "probes": probes, "vtime_ns": 0}
+
+    def warmup(self, cases):
+        seen = set()
+        for c in cases:  # one case of every mutation kind, so that nothing is imported for the first time under the memory watch
+            k = (c[1], c[2][0])
+            if k not in seen:
+                seen.add(k)
+                try:
+                    self.run_case(c)
+                except Exception:  # noqa: BLE001 - reported by the workers
+                    pass
 
     def shrink(self, case):
         bi, with_key, fault = case
